@@ -297,6 +297,7 @@ class AttributeCollection(MutableMapping[int, Attribute]):
                             ],
                         ),
                     ],
+                    asn4=True,  # our own AS may need four octets; pack_attribute() converts for a 2-octet peer
                 )
             ),
             Attribute.CODE.LOCAL_PREF: lambda left, right: LocalPreference.from_int(100) if left == right else NOTHING,
